@@ -34,6 +34,7 @@ EXPLANATION += (" R-C10-4: per-point knee values spread over the hysteresis tabl
 EXPLANATION += (' R-C10-6: in the damage modules the per-point assessment and component-curve parameters are neither reduced over the batch (np.min/np.max/.min()/...) nor re-ordered by their index labels (sort_index/sort_values/reindex).')
 EXPLANATION += (' R-C10-7: incremental sums over classes (outer loop over j, inner loop from a carried start to U(j)) carry exactly the end of the processed range (affine equality), so every class is added once whatever class the loop starts at, and a loop start derived from a minimum over the points is clamped to a valid class index.')
 EXPLANATION += (' R-C10-8: the per-node maximum load (paired by position with the nodes of a load step by the binned laws) is computed with a groupby that keeps the order of appearance (sort=False); order-class analysis.')
+EXPLANATION += (' R-C10-9 (shared with R-C07-8 / R-C05-12): the per-point look-up tables of the binned law are never replaced or re-ordered after their construction; their rows are paired with the points of a load step by position.')
 ASSUMPTIONS = [
     "pandas groupby(level).reduction() reduces within each group only; element-wise numpy/pandas operations keep rows apart",
 ]
@@ -280,6 +281,17 @@ def run(ctx):
     ctx.attempt(_r6)
     ctx.attempt(_r7)
     ctx.attempt(_r8)
+    ctx.attempt(_r9)
+
+
+def _r9(ctx):
+    """With per-point load maxima every point has look-up tables of its own, and the binned law pairs their rows with the
+    points of a load step by position.  The tables must keep the row order in which they were built - re-ordered tables give a
+    point the values of another point of the same batch (shared with R-C07-8 / R-C05-12)."""
+    from .c07 import tables_fixed
+    prog = ctx.prog
+    ctx.rule("R-C10-9", floor=4, what="per-point look-up tables are never re-ordered after construction (shared with R-C07-8)")
+    tables_fixed(ctx, prog.cls("pylife.materiallaws.notch_approximation_law:Binned"))
 
 
 def _r8(ctx):
